@@ -18,6 +18,7 @@ class SpyControl:
     def __init__(self, delay=0.0, delay_ops=None, fail_at=None, fail_from=None, fail_op=None,
                  fail_exc=OSError):
         self.calls = []            # (op, str(first path arg) or None)
+        self.owners = []           # parallel to calls: client port of the Connection the PathIO instance belongs to
         self.count = 0
         self.delay = delay
         self.delay_ops = set(delay_ops) if delay_ops is not None else None
@@ -58,6 +59,11 @@ class SpyControl:
                 p = a
                 break
         self.calls.append((op, None if p is None else str(p)))
+        # whose request the backend believes it is serving: the Connection object its instance was created for
+        try:
+            self.owners.append(inst.connection.client_port)
+        except Exception:
+            self.owners.append(None)
         if self.fail_at is not None and k == self.fail_at:
             self.failed.append((k, op))
             raise self.fail_exc(5, f"injected failure at backend call {k} ({op})")
